@@ -273,10 +273,10 @@ TIE_GROUPS = {
     "C09": ["Mask", "Swar"], "C05": ["Mask"],
     "C03": ["RabinKarp", "ByteSet", "Shift", "Suffix", "TwoWayNew", "Prefilter", "Searcher", "Mask"],
     "C04": ["RabinKarp", "ByteSet", "Shift", "Suffix", "TwoWayNew", "Mask"],
-    "C08": ["Prefilter", "Searcher", "IterHint"], "C10": ["Prefilter", "Searcher"], "C16": ["Prefilter"],
+    "C08": ["Prefilter", "Searcher", "IterHint", "IterNext"], "C10": ["Prefilter", "Searcher"], "C16": ["Prefilter", "IterNext"],
     "C11": ["Mask", "Pair"], "C12": ["RabinKarp", "ByteSet", "Shift", "Suffix", "TwoWayNew", "Mask"],
     "C13": ["Searcher", "RabinKarp", "Shift", "Suffix", "Prefilter"],
-    "C14": ["Prefilter", "RabinKarp", "Swar", "ByteSet", "Mask", "Pair", "Searcher", "IterHint", "Shift", "Suffix", "TwoWayNew"],
+    "C14": ["Prefilter", "RabinKarp", "Swar", "ByteSet", "Mask", "Pair", "Searcher", "IterHint", "IterNext", "Shift", "Suffix", "TwoWayNew"],
     "C19": ["Pair"],
 }
 for _pid, _g in TIE_GROUPS.items():
